@@ -1,4 +1,5 @@
 #include <signal.h>
+#include <sys/prctl.h>
 #include <sys/time.h>
 #include <unistd.h>
 
@@ -144,7 +145,28 @@ bool Ctx::fail(const std::string &prop, const std::string &oracle, const std::st
 
 // ------------------------------------------------------------------------------------------- hook dispatch
 static HookSink *g_sink = nullptr;
-static void hook_trampoline(int site, long a, long b) { g_progress = g_progress + 1; if (g_sink) g_sink->on_point(site, a, b); }
+// Independent of any world's own monitor: a macro expansion whose stream keeps growing is bounded but can take hours
+// (cubic, see DESIGN.md 12.2), and a change under test can make one LR parse spin while passing hook points.  Every
+// compile in every world is abandoned - never judged - past the same cost caps.
+static thread_local long long tl_pass_cost = 0, tl_lr_actions = 0, tl_lr_limit = 0, tl_lr_total = 0;
+bool g_slow_abandoned = false;
+long long g_pass_cost_cap = 60000000LL, g_lr_total_cap = 30000000LL;
+static void hook_trampoline(int site, long a, long b) {
+  g_progress = g_progress + 1;
+  if (site == Theo::verif::MACRO_PASS) {
+    if (a == 0) { tl_pass_cost = 0; tl_lr_total = 0; }
+    tl_pass_cost += (long long)b * b;
+    if (tl_pass_cost > g_pass_cost_cap) { tl_pass_cost = 0; g_slow_abandoned = true; throw SimAbort(); }
+  } else if (site == Theo::verif::MACRO_DETECT) {
+    tl_lr_actions = 0; tl_lr_limit = 64 * ((long long)b - a + 64);
+  } else if (site == Theo::verif::LR_ACTION) {
+    // one prefix parse makes a bounded number of moves per remaining token (W2 judges a tighter bound under C02)
+    if (++tl_lr_actions > tl_lr_limit && tl_lr_limit > 0) { tl_lr_actions = 0; g_slow_abandoned = true; throw SimAbort(); }
+    if (++tl_lr_total > g_lr_total_cap) { tl_lr_total = 0; g_slow_abandoned = true; throw SimAbort(); }
+  }
+  if (g_sink) g_sink->on_point(site, a, b);
+}
+void die_with_parent() { prctl(PR_SET_PDEATHSIG, SIGKILL); }
 void install_hook(HookSink *s) {
   g_sink = s;
   Theo::verif::point_hook = hook_trampoline;   // always installed: every hook event counts as progress for the stall guard
@@ -185,6 +207,7 @@ Outcome exec_plan(const Plan &plan, bool trace, const std::string &only_oracle) 
   }
   install_hook(nullptr);
   set_phase(PH_HARNESS);
+  if (g_slow_abandoned) { ctx.stats.inc("skipped_slow"); g_slow_abandoned = false; }
   out.violated = ctx.violated; out.prop = ctx.v_prop; out.oracle = ctx.v_oracle; out.msg = ctx.v_msg;
   out.log_hash = ctx.log.get();
   out.sim_steps = ctx.sim_steps;
